@@ -464,9 +464,10 @@ Proof.
   vm_compute. repeat split; reflexivity.
 Qed.
 
-(* ------------------------------------------------------------------ C17_roundtrip *)
+(* ------------------------------------------------------------------ C17_roundtrip_except_adjacent_surrogate_pair *)
 (* premises: codec_ok M vs (a law quantified over parameter numbers, values and documents, but only for the values
-   vs holds: finitely many instances), snapshot_of M vs = Some data, nth_error M i = Some p, persistent p = true,
+   vs holds: finitely many instances), snapshot_of M vs = Some data, jtext data = data (the guard of the open finding:
+   no string of the document holds an adjacent surrogate pair), nth_error M i = Some p, persistent p = true,
    aget i vs = Some v, aget i cfg = None.  vs = the values of the module created from the foreign document: all
    eight parameters, table-based and compound datatypes included *)
 Definition nv_vs : amap := vals (init_state nvM nv_cfg nv_foreign nv_loaded).
@@ -484,16 +485,17 @@ Proof.
   destruct i; discriminate.
 Qed.
 
-Example C17_nonvacuous_roundtrip :
-  codec_ok nvM nv_vs /\ snapshot_of nvM nv_vs = Some nv_doc_vs /\
+Example C17_nonvacuous_roundtrip_except_adjacent_surrogate_pair :
+  codec_ok nvM nv_vs /\ snapshot_of nvM nv_vs = Some nv_doc_vs /\ jtext nv_doc_vs = nv_doc_vs /\
   (exists p, nth_error nvM 2 = Some p /\ persistent p = true) /\ aget 2 nv_vs = Some nv_half /\
   aget 2 [(0%nat, VInt 8)] = None.
 Proof.
-  split; [exact nv_codec_ok|]. split; [vm_compute; reflexivity|]. split; [eexists; split; reflexivity|].
+  split; [exact nv_codec_ok|]. split; [vm_compute; reflexivity|]. split; [vm_compute; reflexivity|].
+  split; [eexists; split; reflexivity|].
   split; vm_compute; reflexivity.
 Qed.
 
-Example C17_roundtrip_applies :
+Example C17_roundtrip_except_adjacent_surrogate_pair_applies :
   (exists raw loaded, load_file nvM {| target := Some (CW nv_doc_vs 7 7); tmp := None |} = LOk raw loaded /\
      aget 2 (vals (init_state nvM [(0%nat, VInt 8)] raw loaded)) = Some nv_half) /\
   (exists raw loaded, load_file nvM {| target := Some (CW nv_doc_vs 7 7); tmp := None |} = LOk raw loaded /\
@@ -502,12 +504,12 @@ Example C17_roundtrip_applies :
      aget 5 (vals (init_state nvM [(0%nat, VInt 8)] raw loaded)) = Some (VMap [(s_a, VFlt (FInt 2)); (s_b, VInt 1)])).
 Proof.
   split; [|split].
-  - eapply (C17_roundtrip nvM nv_vs nv_doc_vs 7 [(0%nat, VInt 8)] 2);
-      [exact nv_codec_ok|vm_compute; reflexivity|simpl; reflexivity|reflexivity|vm_compute; reflexivity|reflexivity].
-  - eapply (C17_roundtrip nvM nv_vs nv_doc_vs 7 [(0%nat, VInt 8)] 3);
-      [exact nv_codec_ok|vm_compute; reflexivity|simpl; reflexivity|reflexivity|vm_compute; reflexivity|reflexivity].
-  - eapply (C17_roundtrip nvM nv_vs nv_doc_vs 7 [(0%nat, VInt 8)] 5);
-      [exact nv_codec_ok|vm_compute; reflexivity|simpl; reflexivity|reflexivity|vm_compute; reflexivity|reflexivity].
+  - eapply (C17_roundtrip_except_adjacent_surrogate_pair nvM nv_vs nv_doc_vs 7 [(0%nat, VInt 8)] 2);
+      [exact nv_codec_ok|vm_compute; reflexivity|vm_compute; reflexivity|simpl; reflexivity|reflexivity|vm_compute; reflexivity|reflexivity].
+  - eapply (C17_roundtrip_except_adjacent_surrogate_pair nvM nv_vs nv_doc_vs 7 [(0%nat, VInt 8)] 3);
+      [exact nv_codec_ok|vm_compute; reflexivity|vm_compute; reflexivity|simpl; reflexivity|reflexivity|vm_compute; reflexivity|reflexivity].
+  - eapply (C17_roundtrip_except_adjacent_surrogate_pair nvM nv_vs nv_doc_vs 7 [(0%nat, VInt 8)] 5);
+      [exact nv_codec_ok|vm_compute; reflexivity|vm_compute; reflexivity|simpl; reflexivity|reflexivity|vm_compute; reflexivity|reflexivity].
 Qed.
 
 (* codec_ok is not trivially true: a scaled table in which two integers give the same double (it cannot come from
